@@ -38,12 +38,18 @@ fn generate_fvar(static_metadata: &StaticMetadata) -> Option<Fvar> {
     // Reuse an existing name record if possible (and allowed by the spec)
     let reverse_names = static_metadata.reverse_names();
     let min_font_specific_name_id = NameId::new(256);
-    let reusable_name_id = |name: &str, allow_reserved: bool| {
+    // The only spec-reserved name IDs an instance's subfamily name may use are 2 and 17
+    let reusable_name_id = |name: &str, allow_subfamily: bool| {
         reverse_names
             .get(name)
             .unwrap()
             .iter()
-            .find(|&&name_id| allow_reserved || name_id >= min_font_specific_name_id)
+            .find(|&&name_id| {
+                name_id >= min_font_specific_name_id
+                    || (allow_subfamily
+                        && (name_id == NameId::SUBFAMILY_NAME
+                            || name_id == NameId::TYPOGRAPHIC_SUBFAMILY_NAME))
+            })
             .cloned()
             .unwrap()
     };
@@ -152,7 +158,8 @@ impl Work<Context, AnyWorkId, Error> for FvarWork {
 #[cfg(test)]
 mod tests {
     use fontdrasil::types::Axis;
-    use fontir::ir::StaticMetadata;
+    use fontir::ir::{NameKey, NamedInstance, StaticMetadata};
+    use write_fonts::types::NameId;
 
     use super::generate_fvar;
 
@@ -185,6 +192,55 @@ mod tests {
         let static_metadata = create_static_metadata(&[axis("wght", 400.0, 400.0, 400.0)]);
         let fvar = generate_fvar(&static_metadata);
         assert!(fvar.is_none());
+    }
+
+    #[test]
+    fn default_instance_reuses_only_subfamily_name_ids() {
+        // the default instance is named like the family, not like the subfamily
+        let wght = axis("wght", 400.0, 400.0, 700.0);
+        let names = [
+            (NameId::FAMILY_NAME, "Fam"),
+            (NameId::SUBFAMILY_NAME, "Regular"),
+            (NameId::TYPOGRAPHIC_FAMILY_NAME, "Fam"),
+        ]
+        .into_iter()
+        .map(|(id, s)| (NameKey::new(id, s), s.to_string()))
+        .collect();
+        let named_instances = ["Fam", "Regular"]
+            .into_iter()
+            .map(|name| NamedInstance {
+                name: name.to_string(),
+                postscript_name: None,
+                location: vec![(wght.tag, wght.default)].into(),
+            })
+            .collect();
+        let static_metadata = StaticMetadata::new(
+            1000,
+            names,
+            vec![wght],
+            named_instances,
+            Default::default(),
+            Default::default(),
+            Default::default(),
+            None,
+            false,
+        )
+        .unwrap();
+
+        let fvar = generate_fvar(&static_metadata).unwrap();
+        let name_ids = fvar
+            .axis_instance_arrays
+            .instances
+            .iter()
+            .map(|inst| inst.subfamily_name_id)
+            .collect::<Vec<_>>();
+        // 1 and 16 are not allowed, 2 is; the axis name took 256
+        assert_eq!(
+            name_ids,
+            vec![NameId::new(257), NameId::SUBFAMILY_NAME],
+            "{:?}",
+            static_metadata.names
+        );
     }
 
     #[test]
